@@ -27,7 +27,14 @@ PROPS["C11"] = dict(
                 "e2e:c11:scenarios", "e2e:c11:nontrivial_scenarios", "e2e:c11:route_changes", "e2e:c11:messages_checked", "e2e:c11:updates_after_resume", "e2e:c11:messages_with_shared_attributes",
                 "e2e:c11:messages_with_50plus_prefixes", "e2e:c11:messages_within_64_of_limit", "e2e:c11:routes_compared_with_last_action", "e2e:c11:routes_compared_with_adj_out",
                 "e2e:c11:oversize_routes_skipped", "e2e:c11:eor_received", "e2e:c11:ev:announce:tiny", "e2e:c11:ev:announce:medium", "e2e:c11:ev:announce:large", "e2e:c11:ev:announce:near-limit",
-                "e2e:c11:ev:announce:oversize", "e2e:c11:ev:withdraw", "e2e:c11:ev:group-announce", "e2e:c11:ev:group-withdraw", "e2e:c11:ev:late-target-paused-from-start"]
+                "e2e:c11:ev:announce:oversize", "e2e:c11:ev:withdraw", "e2e:c11:ev:group-announce", "e2e:c11:ev:group-withdraw", "e2e:c11:ev:late-target-paused-from-start",
+                # second scenario kind of unit "e2e": several sessions of one neighbour with changing capabilities
+                "e2e:c11:resession:scenarios", "e2e:c11:resession:nontrivial_scenarios", "e2e:c11:resession:sessions", "e2e:c11:resession:messages_checked",
+                "e2e:c11:resession:sessions_with_more_than_4096_octets_of_nlri", "e2e:c11:resession:plain_sessions_that_had_to_split:after-extended-session",
+                "e2e:c11:resession:plain_sessions_that_had_to_split:after-plain-sessions", "e2e:c11:resession:routes_compared_with_last_action",
+                "e2e:c11:resession:routes_compared_with_adj_out", "e2e:c11:resession:flip:ext:on->off", "e2e:c11:resession:flip:ext:off->on",
+                "e2e:c11:resession:flip:addpath:on->off", "e2e:c11:resession:flip:addpath:off->on", "e2e:c11:resession:flip:as4:on->off", "e2e:c11:resession:flip:as4:off->on",
+                "e2e:c11:resession:ev:big-group-announce"]
                + ["e2e:c11:session:addpath=%s,ext=%s,gr=%s,late=%s" % (a, b, c, d) for a in ("false", "true") for b in ("false", "true") for c in ("false", "true") for d in ("false", "true")],
     units=[dict(name="table", harness="t_table", files=["common_", "c11_"], run="TestVerifC11",
                 shards=dict(quick=16, thorough=16), timeout_s=dict(quick=900, thorough=7200)),
